@@ -85,20 +85,194 @@ pub fn slp_opts(skip: bool, hash: bool) -> peppi::io::slippi::de::Opts {
 	peppi::io::slippi::de::Opts { skip_frames: skip, compute_hash: hash, debug: None }
 }
 
+// ---- transports -------------------------------------------------------------------------------
+// Every wrapper below picks, as a pure function of its input, *how* the bytes reach peppi: a plain
+// cursor, a BufReader, or a reader that hands out short reads (and, for writers, a sink that accepts
+// short writes and implements only `write`/`flush`). peppi's readers take any `Read (+ Seek)` and its
+// writers any `Write`, so every one of these must behave identically; the choice is deterministic so
+// that a replay file reproduces it.
+
+pub const TRANSPORTS: [&str; 16] = [
+	"r:cursor", "r:bufreader(37)", "r:bufreader(8192)", "r:fixed(1)", "r:fixed(3)", "r:fixed(7)", "r:fixed(64)", "r:random", "r:split",
+	"w:vec", "w:cursor", "w:short(1)", "w:short(5)", "w:short(509)", "w:bufwriter(13)+short", "r:embedded",
+];
+pub static TRANSPORT_COUNTS: [AtomicU64; 16] = [const { AtomicU64::new(0) }; 16];
+thread_local! {
+	static VIA_LOG: std::cell::RefCell<std::collections::VecDeque<&'static str>> = std::cell::RefCell::new(Default::default());
+}
+fn via(i: usize) {
+	TRANSPORT_COUNTS[i].fetch_add(1, Ordering::Relaxed);
+	VIA_LOG.with(|l| {
+		let mut l = l.borrow_mut();
+		if l.len() >= 8 {
+			l.pop_front();
+		}
+		l.push_back(TRANSPORTS[i]);
+	});
+}
+/// the transports of the last (up to 8) peppi calls made on this thread, oldest first
+pub fn recent_transports() -> Vec<&'static str> {
+	VIA_LOG.with(|l| l.borrow().iter().copied().collect())
+}
+pub fn transport_counts() -> BTreeMap<String, u64> {
+	TRANSPORTS.iter().enumerate().map(|(i, n)| (n.to_string(), TRANSPORT_COUNTS[i].load(Ordering::Relaxed))).filter(|(_, c)| *c > 0).collect()
+}
+
+fn selector(bytes: &[u8]) -> u64 {
+	let n = bytes.len();
+	let mut h = xxhash_rust::xxh3::xxh3_64(&bytes[..n.min(48)]);
+	h ^= xxhash_rust::xxh3::xxh3_64(&bytes[n - n.min(48)..]).rotate_left(17);
+	h ^ (n as u64).wrapping_mul(0x9e3779b97f4a7c15)
+}
+
+/// reader schedule for `bytes` (None = plain cursor / BufReader handled by the caller)
+fn pick_reader(bytes: &[u8]) -> (usize, Option<crate::readers::Schedule>) {
+	use crate::readers::Schedule as S;
+	if std::env::var_os("PV_PLAIN_TRANSPORT").is_some() {
+		return (0, None);
+	}
+	let h = selector(bytes);
+	let n = bytes.len();
+	match h % 16 {
+		0..=4 => (0, None),
+		5 => (1, None),
+		6 => (2, None),
+		7 | 8 => {
+			if n <= 1 << 16 {
+				(3, Some(S::Fixed(1)))
+			} else {
+				(6, Some(S::Fixed(64)))
+			}
+		}
+		9 => {
+			if n <= 1 << 18 {
+				(4, Some(S::Fixed(3)))
+			} else {
+				(6, Some(S::Fixed(64)))
+			}
+		}
+		10 => (5, Some(S::Fixed(7))),
+		11 => (6, Some(S::Fixed(64))),
+		12 | 13 => (7, Some(S::Random((h >> 8) | 1, [2usize, 5, 16, 100, 700][(h >> 40) as usize % 5]))),
+		_ => (8, Some(S::Split((h >> 8) as usize % n.max(1)))),
+	}
+}
+
+fn sched_reader(bytes: &[u8], s: crate::readers::Schedule) -> crate::readers::SchedReader<'_> {
+	let mut r = crate::readers::SchedReader::new(bytes, s);
+	r.budget = usize::MAX;
+	r
+}
+
+pub fn slp_read_opts(bytes: &[u8], o: Option<&peppi::io::slippi::de::Opts>) -> Out<Game> {
+	use std::io::BufReader;
+	let (label, sched) = pick_reader(bytes);
+	via(label);
+	match (label, sched) {
+		(_, Some(s)) => {
+			let mut r = sched_reader(bytes, s);
+			guard(|| peppi::io::slippi::read(&mut r, o))
+		}
+		(1, _) => guard(|| peppi::io::slippi::read(BufReader::with_capacity(37, Cursor::new(bytes)), o)),
+		(2, _) => guard(|| peppi::io::slippi::read(BufReader::new(Cursor::new(bytes)), o)),
+		_ => guard(|| peppi::io::slippi::read(Cursor::new(bytes), o)),
+	}
+}
+
 pub fn slp_read(bytes: &[u8], skip: bool, hash: bool) -> Out<Game> {
 	let o = slp_opts(skip, hash);
-	guard(|| peppi::io::slippi::read(Cursor::new(bytes), Some(&o)))
+	slp_read_opts(bytes, Some(&o))
 }
 
 pub fn slp_read_default(bytes: &[u8]) -> Out<Game> {
-	guard(|| peppi::io::slippi::read(Cursor::new(bytes), None))
+	slp_read_opts(bytes, None)
+}
+
+/// A replay embedded in a larger stream: `stream[at..at+len]` is the replay, the reader is handed
+/// over positioned at `at` (a second replay in a concatenated dump, an archive member, ...).
+pub fn slp_read_embedded(stream: &[u8], at: usize, o: Option<&peppi::io::slippi::de::Opts>) -> (Out<Game>, usize) {
+	via(15);
+	let (_, sched) = pick_reader(&stream[at..]);
+	let mut r = sched_reader(stream, sched.unwrap_or(crate::readers::Schedule::Full));
+	r.pos = at;
+	let out = guard(|| peppi::io::slippi::read(&mut r, o));
+	(out, r.pos)
+}
+
+/// `Write` sink that accepts at most `cap` bytes per call and implements nothing beyond `write`/`flush`.
+pub struct ShortWriter {
+	pub out: Vec<u8>,
+	pub cap: usize,
+	pub writes: usize,
+}
+impl std::io::Write for ShortWriter {
+	fn write(&mut self, buf: &[u8]) -> std::io::Result<usize> {
+		let n = buf.len().min(self.cap.max(1));
+		self.out.extend_from_slice(&buf[..n]);
+		self.writes += 1;
+		Ok(n)
+	}
+	fn flush(&mut self) -> std::io::Result<()> {
+		Ok(())
+	}
+}
+
+/// run `f` against the writer transport chosen by `h`; returns what reached the sink
+fn with_writer<E: std::fmt::Display>(h: u64, big: bool, f: impl FnOnce(&mut dyn std::io::Write) -> Result<(), E>) -> Out<Vec<u8>> {
+	use std::io::{BufWriter, Write};
+	let plain = std::env::var_os("PV_PLAIN_TRANSPORT").is_some();
+	let k = if plain { 0 } else { h % 12 };
+	match k {
+		0..=4 => {
+			via(9);
+			guard(|| {
+				let mut v = Vec::new();
+				f(&mut v).map(|_| v)
+			})
+		}
+		5 | 6 => {
+			via(10);
+			guard(|| {
+				let mut c = Cursor::new(Vec::new());
+				f(&mut c).map(|_| c.into_inner())
+			})
+		}
+		7 | 8 | 9 => {
+			let (label, cap) = match (k, big) {
+				(7, false) => (11, 1),
+				(8, false) => (12, 5),
+				_ => (13, 509),
+			};
+			via(label);
+			guard(|| {
+				let mut w = ShortWriter { out: Vec::new(), cap, writes: 0 };
+				f(&mut w).map(|_| w.out)
+			})
+		}
+		_ => {
+			via(14);
+			let mut w = ShortWriter { out: Vec::new(), cap: if big { 509 } else { 3 }, writes: 0 };
+			let r = guard(|| {
+				let mut b = BufWriter::with_capacity(13, &mut w);
+				f(&mut b).map_err(|e| e.to_string())?;
+				b.flush().map_err(|e| e.to_string())
+			});
+			match r {
+				Out::Ok(()) => Out::Ok(w.out),
+				Out::Err(e) => Out::Err(e),
+				Out::Panic(p) => Out::Panic(p),
+			}
+		}
+	}
+}
+
+fn game_selector(g: &Game) -> u64 {
+	selector(&g.start.bytes.0) ^ (g.frames.len() as u64).wrapping_mul(0x51ed270b0a1f3d59) ^ g.metadata.as_ref().map_or(7, |m| m.len() as u64 + 11)
 }
 
 pub fn slp_write(g: &Game) -> Out<Vec<u8>> {
-	guard(|| {
-		let mut v = Vec::new();
-		peppi::io::slippi::write(&mut v, g).map(|_| v)
-	})
+	let big = g.frames.len() > 2000;
+	with_writer(game_selector(g), big, |mut w| peppi::io::slippi::write(&mut w, g))
 }
 
 #[derive(Clone, Copy, Debug, PartialEq, Eq, Hash)]
@@ -137,17 +311,28 @@ pub fn slpp_write(g: Game, c: Comp) -> Out<Vec<u8>> {
 	};
 	// `opts: None` is a documented way to ask for "no compression": exercised for half of those calls
 	let pass_none = c == Comp::None && g.frames.len() % 2 == 0;
-	guard(|| {
-		let mut v = Vec::new();
-		peppi::io::peppi::write(&mut v, g, if pass_none { None } else { Some(&o) }).map(|_| v).map_err(|e| e.to_string())
-	})
+	let big = g.frames.len() > 2000;
+	let h = game_selector(&g).rotate_left(23) ^ c as u64;
+	with_writer(h, big, move |w| peppi::io::peppi::write(w, g, if pass_none { None } else { Some(&o) }).map_err(|e| e.to_string()))
 }
 
 pub fn slpp_read(bytes: &[u8], skip: bool) -> Out<Game> {
+	use std::io::BufReader;
 	let o = peppi::io::peppi::de::Opts { skip_frames: skip };
 	// `opts: None` means "read everything": exercised for half of the non-skip calls
 	let pass_none = !skip && (bytes.len() / 512) % 2 == 0;
-	guard(|| peppi::io::peppi::read(Cursor::new(bytes), if pass_none { None } else { Some(&o) }))
+	let o = if pass_none { None } else { Some(&o) };
+	let (label, sched) = pick_reader(bytes);
+	via(label);
+	match (label, sched) {
+		(_, Some(s)) => {
+			let mut r = sched_reader(bytes, s);
+			guard(|| peppi::io::peppi::read(&mut r, o))
+		}
+		(1, _) => guard(|| peppi::io::peppi::read(BufReader::with_capacity(37, Cursor::new(bytes)), o)),
+		(2, _) => guard(|| peppi::io::peppi::read(BufReader::new(Cursor::new(bytes)), o)),
+		_ => guard(|| peppi::io::peppi::read(Cursor::new(bytes), o)),
+	}
 }
 
 // ---------------------------------------------------------------------------------------------
@@ -160,11 +345,13 @@ pub struct Fail {
 	/// extra artefacts written next to the replay JSON: (extension, bytes)
 	pub files: Vec<(String, Vec<u8>)>,
 	pub detail: Value,
+	/// transports of the peppi calls that led up to this failure (same thread, oldest first)
+	pub transports: Vec<&'static str>,
 }
 
 impl Fail {
 	pub fn new(sig: impl Into<String>, msg: impl Into<String>) -> Self {
-		Fail { sig: sig.into(), msg: msg.into(), files: Vec::new(), detail: Value::Null }
+		Fail { sig: sig.into(), msg: msg.into(), files: Vec::new(), detail: Value::Null, transports: recent_transports() }
 	}
 	pub fn with_file(mut self, ext: &str, bytes: &[u8]) -> Self {
 		if !self.files.iter().any(|(e, _)| e == ext) {
@@ -330,6 +517,10 @@ impl Ctx {
 		for (k, v) in self.extra.lock().unwrap().iter() {
 			cov.insert(k.clone(), v.clone());
 		}
+		let tc = transport_counts();
+		if !tc.is_empty() {
+			cov.insert("transports".into(), json!(tc));
+		}
 		let kh = self.known_hits.lock().unwrap().clone();
 		if !kh.is_empty() {
 			cov.insert("known_finding_hits".into(), json!(kh));
@@ -362,6 +553,7 @@ impl Ctx {
 			"message": f.msg,
 			"detail": f.detail,
 			"seed": self.seed,
+			"recent_transports": f.transports,
 		});
 		let text = serde_json::to_string_pretty(&body).unwrap();
 		let h = xxhash_rust::xxh3::xxh3_64(format!("{}{}", kind, params).as_bytes());
